@@ -314,3 +314,73 @@ Example C09_parallel_liveness_nonvacuous :
   (let res := run_parallel exl (fun _ _ => 0) (fun _ => 0) true false false (exl_fuel 3) 3 [2;0;1;3;1;0;2;2;1]%nat [0; 3] in
    snd res = 2 /\ pfinished (fst res) 0 /\ pfinished (fst res) 3).
 Proof. split; [exact exl_finite|exact par_liveness_nonvacuous]. Qed.
+
+(* ---- the declaration as the dodo file writes it (round G) -------------------------------------------------
+   Model/DeclTable.v: [decl_table dd] is the task table TaskControl hands to the dispatcher for the declaration
+   [dd] (per task: task_dep, setup, calc_dep, producers of file_dep, getargs sources, result_dep tasks, values the
+   actions return); its row for task k is computed from the declaration of k alone -- which container objects the
+   dodo file uses to write the lists (one module-level list shared by several tasks, a tuple, a literal) is not
+   an input of it.  The harness (harness/c09_decl.py) checks that the real loader / Task / TaskControl agree with
+   that: generated dodo modules with shared list / tuple / dict objects behave as [decl_table] says. *)
+From DoitV Require Import DeclTable DeclTableP.
+
+(* the row of task k holds exactly the edges k itself declares: nothing another task declares leaks into it
+   (a getargs source becomes a setup-task of THAT task only, an implicit file dependency / result_dep a task_dep
+   of THAT task only) *)
+Theorem C09_declared_row_has_own_edges_only :
+  forall dd k y,
+    In y (static_deps (decl_table dd) k) <->
+    In y (d_task_dep (get_dtask dd k) ++ d_result_dep (get_dtask dd k) ++ d_file_dep (get_dtask dd k) ++
+          d_calc_dep (get_dtask dd k) ++ d_setup (get_dtask dd k) ++ d_getargs (get_dtask dd k)).
+Proof. exact decl_row_edges. Qed.
+Print Assumptions C09_declared_row_has_own_edges_only.
+
+(* the effective dependency graph of the table (static edges and everything calc_dep tasks return) IS the
+   declared graph, so are its paths *)
+Theorem C09_declared_graph_is_effective_graph :
+  forall dd x y, (eff_dep (decl_table dd) x y <-> decl_dep dd x y) /\ (reach (decl_table dd) x y <-> decl_reach dd x y).
+Proof. intros dd x y. split; [apply decl_eff_dep_iff|apply decl_reach_iff]. Qed.
+Print Assumptions C09_declared_graph_is_effective_graph.
+
+(* over a declaration whose graph has no cycle a serial run never raises either cycle diagnostic (so it never
+   exits with 3 for that reason), whatever the selection, flags, set-order oracles and fuel; and conversely a
+   diagnostic means that the DECLARED graph has a cycle *)
+Theorem C09_declared_acyclic_never_diagnosed_serial :
+  forall dd wake_rank calc_rank continue_ always fuel selection,
+    (forall k, ~ decl_reach dd k k) ->
+    let tr := fst (run_serial (decl_table dd) wake_rank calc_rank continue_ always fuel selection) in
+    ~ In EHoldError tr /\ forall p, ~ In (ECycleError p) tr.
+Proof. exact decl_acyclic_no_diagnostic. Qed.
+Print Assumptions C09_declared_acyclic_never_diagnosed_serial.
+
+Theorem C09_declared_diagnostic_means_declared_cycle :
+  forall dd wake_rank calc_rank continue_ always fuel selection,
+    let tr := fst (run_serial (decl_table dd) wake_rank calc_rank continue_ always fuel selection) in
+    (In EHoldError tr \/ exists p, In (ECycleError p) tr) -> exists k, decl_reach dd k k.
+Proof. exact decl_diagnostic_real. Qed.
+Print Assumptions C09_declared_diagnostic_means_declared_cycle.
+
+(* non-vacuity: the dodo file of the seeded change (init = 2; produce = 1: setup [init]; consume = 0: setup [init],
+   getargs from produce) declares an acyclic graph; the run executes all three tasks and exits with 0.  With an
+   edge produce -> produce (what a shared, mutated `setup` list would amount to) the declaration is cyclic and
+   the run exits with 3 without executing produce. *)
+Definition ex09d (n : name) : option dtask :=
+  match n with
+  | 0 => Some (Build_dtask [] [2] [] [] [1] [] [] [])
+  | 1 => Some (Build_dtask [] [2] [] [] [] [] [] [])
+  | 2 => Some (Build_dtask [] [] [] [] [] [] [] [])
+  | _ => None end.
+Definition ex09d_leak (n : name) : option dtask :=
+  match n with
+  | 1 => Some (Build_dtask [] [2; 1] [] [] [] [] [] [])
+  | _ => ex09d n end.
+Example C09_declared_nonvacuous :
+  t_setup (get_task (decl_table ex09d) 0) = [2; 1] /\ t_setup (get_task (decl_table ex09d) 1) = [2] /\
+  decl_verdict ex09d 200 [2; 1; 0] 3 = [0; 0; 1; 2]%Z /\
+  decl_verdict ex09d_leak 200 [2; 1; 0] 3 = [3]%Z /\ decl_reach ex09d_leak 1 1 /\
+  ~ In 1 (executed (fst (run_serial (decl_table ex09d_leak) (fun _ _ => 0) (fun x => x) false false 200 [2; 1; 0]))).
+Proof.
+  split; [reflexivity|]. split; [reflexivity|]. split; [vm_compute; reflexivity|]. split; [vm_compute; reflexivity|].
+  split; [apply dr_step; apply dd_direct; vm_compute; auto|].
+  vm_compute. intuition discriminate.
+Qed.
